@@ -54,7 +54,7 @@ func main() {
 	total := chain.RunStats{Tags: map[string]int{}}
 	for _, name := range []string{"v1only", "mixed", "v2only", "foundation", "foundation2"} {
 		cfg := chain.BaseConfig(chain.Shapes()[name])
-		cfg.Defects = []string{"unbalanced", "zero", "formation", "payout", "wrap", "intx", "confuse"}
+		cfg.Defects = []string{"unbalanced", "zero", "formation", "payout", "wrap", "intx", "confuse", "inblock"}
 		cfg.MaxReverts = 1
 		st := chain.Run(c, cfg, chain.RunOpts{Num: c.Pick(140, 3500), Depth: 56, Timeout: 20 * time.Minute})
 		total.Behaviours += st.Behaviours
@@ -78,6 +78,25 @@ func main() {
 		cfg.Templates, cfg.Defects = []string{"pay", "sf"}, []string{"intx"}
 		cfg.PayAmts, cfg.Fees, cfg.SFSplits = []int{599}, []int{0}, []int{3000}
 		cfg.MaxHeight, cfg.MaxTxns, cfg.MaxReverts, cfg.NoPost = 2, 2, 0, true
+		st := chain.Run(c, cfg, chain.RunOpts{Exhaustive: true, Timeout: 20 * time.Minute})
+		total.Behaviours += st.Behaviours
+		total.Steps += st.Steps
+		for k, v := range st.Tags {
+			total.Tags[k] += v
+		}
+	}
+	// the block exactly at the ephemeral-output height (and the ones around it): siafund outputs spent in the block that
+	// creates them, contracts revised in the block that forms them (exhaustive narrow family, verdicts only)
+	{
+		p := chain.Shapes()["v2only"]
+		p.EphH = 2
+		p.GenSC, p.GenSF = []chain.AbsOut{{600000, "B"}}, []chain.AbsOut{{7000, "B"}, {3000, "B"}}
+		cfg := chain.BaseConfig(p)
+		cfg.Addrs = []string{"B"}
+		cfg.Templates, cfg.Defects = []string{"sf", "form2"}, []string{"inblock"}
+		cfg.Sizes, cfg.FormRH, cfg.SFSplits = []int{200}, [][2]int{{250024, 25}}, []int{3000}
+		cfg.WinStarts, cfg.WinLens = []int{1}, []int{2}
+		cfg.MaxHeight, cfg.MaxTxns, cfg.MaxReverts, cfg.NoPost = 3, 2, 0, true
 		st := chain.Run(c, cfg, chain.RunOpts{Exhaustive: true, Timeout: 20 * time.Minute})
 		total.Behaviours += st.Behaviours
 		total.Steps += st.Steps
@@ -112,7 +131,7 @@ func main() {
 	c.Count(int64(total.Steps), int64(total.Behaviours))
 	for _, need := range []string{"v1:pay", "v2:pay", "v1:sf", "v2:sf", "v1:form1", "v2:form2", "v2:attest", "v1:fnd", "v2:fnd",
 		"v1:sf!sfwrap", "v2:sf!sfwrap", "v2:pay!scwrap", "v1:pay!scwrap",
-		"block!payout+1", "block!payout-1", "block!payout-nov1fees", "block!payout-nov2fees"} {
+		"block!payout+1", "block!payout-1", "block!payout-nov1fees", "block!payout-nov2fees", "v2:sf!ephemeral", "v2:rev2!inblock"} {
 		if need == "v1:fnd" {
 			continue // rare in the quick tier; counted in evidence
 		}
